@@ -279,13 +279,9 @@ func HarnessC02_Interleave() {
 		todo = append(todo, pending{c, c02Payload()})
 	}
 	startedA, startedB := false, false
-	rescaled := false
 	for {
-		// candidates: start A, start B, continue A, continue B, a second Set Chunk Size
+		// candidates: start A, start B, continue A, continue B
 		var cand []int
-		if !rescaled && (startedA || startedB) {
-			cand = append(cand, 4)
-		}
 		if !startedA {
 			cand = append(cand, 0)
 		}
@@ -316,17 +312,6 @@ func HarnessC02_Interleave() {
 			s.cont(a)
 		case 3:
 			s.cont(b)
-		case 4:
-			// Set Chunk Size between the chunks of unfinished messages: effective for the chunks
-			// that follow it, on every chunk stream
-			cs2 := vU32()
-			vAssume(vAnd(cs2 >= 1, cs2 <= 0x7fffffff))
-			s.first(ctl, 3, 0, 4, 1, 0, be32(cs2))
-			for ctl.cur != nil {
-				s.cont(ctl) // the announcement itself is still chunked with the old size
-			}
-			s.chunkSize = cs2
-			rescaled = true
 		}
 	}
 	exp := s.done
@@ -397,4 +382,36 @@ func HarnessC02_Reject() {
 		vAssert(m.MessageType == 1, "nothing is delivered from the rule-breaking part")
 	}
 	vReach("reject")
+}
+
+// HarnessC02_Rescale: a Set Chunk Size sent between the chunks of an unfinished message takes
+// effect for the chunks that follow it, on every chunk stream.
+func HarnessC02_Rescale() {
+	s := &refSender{chunkSize: 128}
+	ctl := &refCS{csid: 2, form: 1}
+	cs := vU32()
+	vAssume(vAnd(cs >= 1, cs <= 3))
+	s.setChunkSize(ctl, cs)
+	a := newSlot(nil)
+	pl := vBytes(3 + vChoice(3))
+	mt := vU8()
+	vAssume(notControl(mt))
+	s.first(a, 0, vU32(), len(pl), mt, vU32(), pl)
+	// after k chunks of the message (forked), announce another size
+	k := vChoice(3)
+	for j := 0; j < k && a.cur != nil; j++ {
+		s.cont(a)
+	}
+	cs2 := vU32()
+	vAssume(vAnd(cs2 >= 1, cs2 <= 0x7fffffff))
+	s.first(ctl, 3, 0, 4, 1, 0, be32(cs2))
+	for ctl.cur != nil {
+		s.cont(ctl) // the announcement itself is still chunked with the old size
+	}
+	s.chunkSize = cs2
+	for a.cur != nil {
+		s.cont(a)
+	}
+	checkMessages(s.out, nil, s.done)
+	vReach("rescale")
 }
